@@ -53,7 +53,7 @@ CASE_TIMEOUT = 10
 
 def run_limited(fn, seconds=None):
     """Call fn() under a repeating SIGALRM (the checks run single-threaded in the main thread).  The alarm
-    keeps firing every 20 ms after the deadline, so that an ImplTimeout swallowed by a bare `except:` in the code
+    keeps firing every millisecond after the deadline, so that an ImplTimeout swallowed by a bare `except:` in the code
     under test is raised again until it gets out."""
     import signal
     seconds = CASE_TIMEOUT if seconds is None else seconds
@@ -61,7 +61,7 @@ def run_limited(fn, seconds=None):
     def handler(signum, frame):
         raise ImplTimeout()
     old = signal.signal(signal.SIGALRM, handler)
-    signal.setitimer(signal.ITIMER_REAL, seconds, 0.02)
+    signal.setitimer(signal.ITIMER_REAL, seconds, 0.001)
     try:
         return fn()
     finally:
